@@ -10,6 +10,45 @@ ENGINES = [
 ]
 NA = {}
 TEXT = {
+    "C08": {
+        "engine": "rrtk-mc c08-two-terminal + c08-axle-differential + c08-tooth-lists",
+        "technique": "stateless bounded-exhaustive exploration of set/update round sequences on real devices (every connection subset x every sequence of rounds over a 5-option-per-terminal alphabet, plus 8-round sequences with few non-empty rounds) against a least-squares projection reference",
+        "text": "Invert, GearTrain (5 ratios, both constructors, all tooth lists of length 2..6 over 3 tooth counts), Axle<0..6> "
+                "and Differential (4 trust modes): every subset of terminals wired to external terminals, every sequence of "
+                "3 (4) rounds for 2-terminal and 2 (3) for 3-terminal devices; after each update the own slots must equal the "
+                "projection of the pre-update reads, stamped with the newest contributing time; uninformed slots and "
+                "external slots bit-identical.",
+        "note": "Two state triples, five timing options per terminal and round (newest, tie, stale; negative and positive times).",
+    },
+    "C13": {
+        "engine": "rrtk-mc c13-devices + c13-chains",
+        "technique": "stateless bounded-exhaustive exploration of command round sequences on real devices and on every chain of 1..4 (5) devices x every sequence of issuing ends, against a newest-command-scaled-along-the-path reference",
+        "text": "Same harness as C08 with commands: after each update every device terminal and connected external terminal "
+                "must read a newest issued command with issuer's time and kind, value mapped by the path; differential "
+                "leaves command slots bit-identical. Chains: all 4^1..4^4 (4^5) device sequences x all 2^6 (2^8) "
+                "issuing-end sequences, ends and every intermediate terminal checked exactly.",
+        "note": "Two commands of different kinds; chain ratios are powers of two so the product is exact.",
+    },
+    "C15": {
+        "engine": "rrtk-mc c15-settable-following + c15-history-adapter + c15-time-getters",
+        "technique": "stateless bounded-exhaustive exploration of operation sequences (all 10^d sequences of set/fail/follow/stop/update/getter-change on two settables; all 11^d sequences of clock/set_delta/set_time/fail/get/update on every GetterFromHistory constructor) against small bookkeeping reference models",
+        "text": "Every sequence of 7 (8 thorough) operations on a recording settable and on ConstantGetter, and every sequence of "
+                "6 (7) operations on GetterFromHistory for each constructor form and two construction instants, is executed "
+                "on fresh real objects and compared after every operation with a ten-line model: last request = last "
+                "successful set; update forwards exactly the followed getter's present value; errors propagate; "
+                "get = Datum(now, history(now+offset)) with the offset rule of each constructor/set_delta/set_time. The "
+                "scripted history stamps its data with a different time than queried so that restamping is observable.",
+        "note": "Two values, four clock steps (incl. negative and 1e12), two deltas, two set_time targets.",
+    },
+    "C12": {
+        "engine": "rrtk-mc c12-seqs + c12-deviations",
+        "technique": "stateless bounded-exhaustive exploration of event histories (all 14^d histories incl. repeated timestamps and 1 ns steps, deviation-bounded long histories) on the real EWMA and moving-average streams (f32 and Quantity variants in lockstep) against a weighted-average reference model",
+        "text": "Every history to depth 5 (6) over {P(dt,v): dt in {0,1ns,0.5s,3s}} + {N,E1} x windows {1ns,0.5s,2s,1h} and "
+                "smoothing {0,.25,.5,1}, plus 24/2 (64/3) long histories: no update panics; moving average equals the "
+                "time-weighted mean of the window (weights >=0, sum = window, asserted in the reference); EWMA equals "
+                "prev*(1-L)+new*L; convexity; first sample; absent ignored; variants agree.",
+        "note": "Windows, smoothing constants, values and steps from fixed alphabets; decreasing timestamps are outside the property.",
+    },
     "C10": {
         "engine": "rrtk-mc c10-seqs-exact + c10-seqs-broad + c10-deviations + c10-units",
         "technique": "stateless bounded-exhaustive exploration of sample/absent/error histories (all 18^d, all 14^d broad, deviation-bounded H/k) on the five real streams against rational-style reference models; exhaustive 7x7 unit grid",
